@@ -11,9 +11,11 @@
 package main
 
 import (
+	"bytes"
 	"encoding/json"
 	"fmt"
 	"os"
+	"path/filepath"
 	"runtime"
 	"sort"
 	"strconv"
@@ -25,6 +27,7 @@ import (
 	"github.com/relex/slog-agent/util/vhook"
 
 	"verifharness/internal/e2e"
+	"verifharness/internal/upstream"
 	"verifharness/internal/vkit"
 )
 
@@ -53,7 +56,61 @@ func buildScenarios(c *vkit.Ctx) []e2e.Scenario {
 		sc.BatchLogs = []int{5, 6, 8, 13, 20}[r.Intn(5)]
 		out = append(out, sc)
 	}
+	// backlog-at-restart: a restart finds thousands of chunk files of one key set, and new records of the same key set arrive at
+	// once: every queued chunk is older than anything made after the start, so all of them go first (seeded c05-s6 queued the
+	// backlog in the background and let new chunks in between)
+	for j := 0; j < c.N(2, 8); j++ {
+		out = append(out, backlogScenario(n+100+j))
+	}
 	return out
+}
+
+const backlogFiles = 6000
+
+func backlogScenario(idx int) e2e.Scenario {
+	sc := e2e.Scenario{ID: fmt.Sprintf("%04d", idx), Family: "backlog-at-restart", Outputs: 1, Mode: "PackedForward", MemWindow: 8, QueueCap: 4 * backlogFiles,
+		ChunkBytes: 300, BatchLogs: 5, MaxPending: 10, Procs: []int{2, 4, 16}[idx%3]}
+	one := e2e.ConnSpec{ID: 1}
+	for q := 1; q <= 8; q++ {
+		one.Recs = append(one.Recs, e2e.Rec{Conn: 1, Seq: q, App: "appA", Sev: 6, Host: "h1", Kind: "plain", Pad: 60})
+	}
+	fresh := e2e.ConnSpec{ID: 2, WriteSize: 400, GapUs: 1500}
+	for q := 1; q <= 60; q++ {
+		fresh.Recs = append(fresh.Recs, e2e.Rec{Conn: 2, Seq: q, App: "appA", Sev: 6, Host: "h1", Kind: "plain", Pad: 60})
+	}
+	sc.Gens = []e2e.GenSpec{
+		{Conns: []e2e.ConnSpec{one}, UpScript: [][]upstream.Step{{{Kind: "refuse", DelayMs: 60000}}}},
+		{Conns: []e2e.ConnSpec{fresh}, UpScript: [][]upstream.Step{nil}, WaitAcked: true},
+	}
+	return sc
+}
+
+// plantBacklog copies one chunk file of the first generation under backlogFiles older ids (the id is also inside the message,
+// same length, replaced) into the queue directory of the attempt that is running.
+func plantBacklog(work string, sc e2e.Scenario) int {
+	root := filepath.Join(work, "sc-"+sc.ID)
+	for _, r := range []string{"retry2", "retry3"} {
+		if _, err := os.Stat(filepath.Join(work, r, "sc-"+sc.ID)); err == nil {
+			root = filepath.Join(work, r, "sc-"+sc.ID)
+		}
+	}
+	files, _ := filepath.Glob(filepath.Join(root, "q1", "*", "*.ff"))
+	if len(files) == 0 {
+		return 0
+	}
+	data, err := os.ReadFile(files[0])
+	if err != nil {
+		return 0
+	}
+	dir, origID, n := filepath.Dir(files[0]), filepath.Base(files[0]), 0
+	for i := 0; i < backlogFiles; i++ {
+		id := fmt.Sprintf("%019d-%08d.ff", 1700000000000000000+int64(i), 0)
+		d := bytes.Replace(data, []byte(origID), []byte(id), 1)
+		if len(id) == len(origID) && os.WriteFile(filepath.Join(dir, id), d, 0o644) == nil {
+			n++
+		}
+	}
+	return n
 }
 
 type finding struct{ class, what string }
@@ -232,7 +289,12 @@ func childMain(c *vkit.Ctx) {
 	if sc.Family == "stop-while-forwarding" {
 		vhook.Hook, overlapped, sentAfterStop, gateOff = e2e.StopOverlapGate(1500*time.Microsecond, 3*time.Millisecond, 300*time.Millisecond)
 	}
-	obs, err, attempts, expired := e2e.RunStable(sc, c.WorkDir(), e2e.Hooks{AfterStop: func(gen int) { gateOff() }}, func(o *e2e.Obs) bool { fs, _ := Judge(o); return len(fs) > 0 })
+	plantedFiles := 0
+	obs, err, attempts, expired := e2e.RunStable(sc, c.WorkDir(), e2e.Hooks{AfterStop: func(gen int) { gateOff() }, BeforeStart: func(gen int) {
+		if sc.Family == "backlog-at-restart" && gen == 1 {
+			plantedFiles = plantBacklog(c.WorkDir(), sc)
+		}
+	}}, func(o *e2e.Obs) bool { fs, _ := Judge(o); return len(fs) > 0 })
 	c.Eval(1)
 	if attempts > 1 {
 		c.Event("attempts_set_aside_after_safety_timeout_expiry", attempts-1)
@@ -262,6 +324,23 @@ func childMain(c *vkit.Ctx) {
 			c.Event("shutdown_save_overlapped_forwarding", 1)
 		}
 		c.Nontrivial("stop-while-forwarding:" + sc.ID)
+	}
+	if sc.Family == "backlog-at-restart" {
+		c.Event("backlog_files_planted", plantedFiles)
+		newBefore := 0 // chunks made after the restart that the upstream received before the last planted one
+		lastPlanted := int64(0)
+		for _, ch := range obs.Chunks {
+			if ch.ChunkID < "1710000000000000000" && ch.Clock > lastPlanted {
+				lastPlanted = ch.Clock
+			}
+		}
+		for _, ch := range obs.Chunks {
+			if ch.Gen == 1 && ch.ChunkID > "1710000000000000000" && ch.Clock < lastPlanted {
+				newBefore++
+			}
+		}
+		c.Event("backlog_runs", 1)
+		c.Event("backlog_new_chunks_received_before_the_backlog_was_through", newBefore)
 	}
 	if info["retransmitted_chunks"] > 0 || info["generations_with_recovery"] > 0 || info["persistent_inputs"] > 0 {
 		b, _ := json.Marshal(sc)
@@ -336,5 +415,6 @@ func main() {
 	c.Require("generations_with_recovery", 2)
 	c.Require("persistent_inputs", 3)
 	c.Require("stop_while_forwarding_runs", 8)
+	c.Require("backlog_files_planted", backlogFiles)
 	c.Finish()
 }
